@@ -242,6 +242,20 @@ func keyAlphabet(declared []string) (keys []string, class map[string]string) {
 		add(d, "declared")
 	}
 	add("", "empty")
+	// the other case style of every declared key (snake_case -> lowerCamel and back): declared only if some field
+	// really has it as its name / JSON name
+	for _, d := range declared {
+		add(lowerCamel(d), "other-case-style")
+		var sn []byte
+		for i := 0; i < len(d); i++ {
+			if c := d[i]; c >= 'A' && c <= 'Z' {
+				sn = append(sn, '_', c+'a'-'A')
+			} else {
+				sn = append(sn, c)
+			}
+		}
+		add(string(sn), "other-case-style")
+	}
 	for _, d := range declared {
 		for i := 1; i < len(d); i++ {
 			add(d[:i], "prefix")
